@@ -148,6 +148,16 @@ def colOf (c : Nat) (p : V3) : Rat :=
 /-- `x[:, col] <cmp> center` -/
 def sideHolds (t : Cmp × Nat) (center : Rat) (p : V3) : Bool := t.1.holdsRat (colOf t.2 p) center
 
+/-- cell `(row, col)` of a template bounding box stored as the `(3, 2)` array `[[lo_x, hi_x], [lo_y, hi_y], [lo_z, hi_z]]`
+(a flat 6-list is reshaped to this) -/
+def cell32 (lo hi : V3) (rc : Nat × Nat) : Rat := if rc.2 = 0 then colOf rc.1 lo else colOf rc.1 hi
+
+/-- … and stored as the `(2, 3)` array `[[lo_x, lo_y, lo_z], [hi_x, hi_y, hi_z]]` -/
+def cell23 (lo hi : V3) (rc : Nat × Nat) : Rat := if rc.1 = 0 then colOf rc.2 lo else colOf rc.2 hi
+
+def cellOf (layout : String) (lo hi : V3) (rc : Nat × Nat) : Rat :=
+  if layout = "(2, 3)" then cell23 lo hi rc else cell32 lo hi rc
+
 /-! ## `TransformSequence.xform`: the caller's array -/
 
 /-- The working array is either a fresh copy of the caller's points or (no copy, float64 input) the caller's own
